@@ -344,9 +344,22 @@ def _gen_provenance(ctx, fn: FunctionInfo, ng: ast.AST, use: ast.AST, depth: int
                     sites = [s for s in ctx.cg.call_sites_of(fn) if s.caller != fn]
                     if not sites:
                         res.append(("unknown", f"generator parameter {ng.id} of {fn.qualname} has no library caller"))
+                    # the parameter's own default, used when a call site omits the argument
+                    a_ = fn.node.args
+                    pos_params = list(a_.posonlyargs) + list(a_.args)
+                    dflt = None
+                    if ng.id in [x.arg for x in pos_params]:
+                        i_ = [x.arg for x in pos_params].index(ng.id) - (len(pos_params) - len(a_.defaults))
+                        if i_ >= 0:
+                            dflt = a_.defaults[i_]
                     for s in sites:
                         arg = kw(s.node, ng.id, idx)
-                        res.append(_gen_provenance(ctx, s.caller, arg, s.node, depth + 1) if arg is not None else ("unknown", "argument not found"))
+                        if arg is not None:
+                            res.append(_gen_provenance(ctx, s.caller, arg, s.node, depth + 1))
+                        elif dflt is not None and isinstance(dflt, ast.Call) and (A.dotted(dflt.func) or "").split(".")[-1] == "NameGenerator":
+                            res.append(("bad", f"the generator defaults to a NameGenerator() built once at definition time of {fn.qualname}: every graph built without an explicit generator shares (and keeps advancing) the same counters"))
+                        else:
+                            res.append(("unknown", "argument not found"))
                 continue
             ap = _assign_parts(d.stmt)
             if ap is None:
